@@ -68,7 +68,7 @@ class PDPAdapter(TourAdapter):
 
     def coq_instance(self, env, td_reset, variant):
         return "(mk_pdp %s %s %s %s)" % (cnat(env.generator.num_loc), cbool(env.force_start_at_depot),
-                                         envh.zmatrix(self.dist_matrix(td_reset)), self.obs_term(td_reset))
+                                         self.matrix_term(self.dist_matrix(td_reset)), self.obs_term(td_reset))
 
     def reward_tol(self, env, td_reset, n_steps):
         if self.is_exact(td_reset):
